@@ -29,6 +29,8 @@ type tcpHandler struct {
 
 	pool  *gpool.Pool
 	conns sync.Map
+	// openConns counts accepted connections whose receive loop has not ended yet
+	openConns int32
 }
 
 type connInfo struct {
@@ -126,6 +128,7 @@ func (t *tcpHandler) Handle() error {
 			continue
 		}
 		atomic.AddInt32(&t.server.numConn, 1)
+		atomic.AddInt32(&t.openConns, 1)
 		go func(conn net.Conn) {
 			key := conn.RemoteAddr().String()
 			switch c := conn.(type) {
@@ -141,9 +144,15 @@ func (t *tcpHandler) Handle() error {
 			t.conns.Store(key, cf)
 			t.recv(cf)
 			t.conns.Delete(key)
+			atomic.AddInt32(&t.openConns, -1)
 		}(conn)
 	}
 	if t.pool != nil {
+		// requests that were already read, and those still arriving on open
+		// connections, need the workers: release the pool when the last connection is gone
+		for atomic.LoadInt32(&t.openConns) > 0 {
+			time.Sleep(time.Millisecond * 100)
+		}
 		t.pool.Release()
 	}
 	return nil
